@@ -25,6 +25,14 @@ CHECKS = {
         "implementation and compared per prefix with the exact optimum; value-based oracle accepts any minimiser.",
         "DESIGN.md §5 C02",
     ),
+    "C03": (
+        "exploration",
+        "bounded exhaustive enumeration of sub-additive saving tables x point-saving vectors x penalty branches "
+        "through the real CAPA/MVCAPA (user-defined table savings, callable penalties), vs an unpruned recursion over all anomaly sets",
+        "Every case of the stated finite spaces is executed on the real detectors; cumulative scores are compared per "
+        "prefix with the exact optimum, the reported anomalies are re-evaluated, admissibility and the ignore flag are checked.",
+        "DESIGN.md §5 C03",
+    ),
 }
 
 NOT_YET = {}
